@@ -18,6 +18,9 @@ PROBES = {
     "p4": "g > a",
     "p5": "f(!b, a)",
     "p6": "f > g > a",
+    "p7": "f > c:@T",
+    "p8": "f > c",
+    "p9": "f(a as ta)",
     "bad": "f > zzz",
     "bad2": "g > #nope",
 }
@@ -53,9 +56,19 @@ def run_case(case):
     probes = {}
     recv = {}
     for pid, text in PROBES.items():
-        p = Probe(text, env=ENV)
         recv[pid] = []
-        p.subscribe(lambda data, pid=pid: recv[pid].append(sorted([k, v] for k, v in data.items())))
+        if pid == "p9":
+            # total mode; its listener raises for the value 13 (after recording the event)
+            p = Probe(text, env=ENV, raw=True)
+
+            def boom(data, pid=pid):
+                recv[pid].append(sorted([k, c.values[0]] for k, c in data.items()))
+                if data["ta"].values == [13]:
+                    raise KeyError("listener")
+            p.subscribe(boom)
+        else:
+            p = Probe(text, env=ENV)
+            p.subscribe(lambda data, pid=pid: recv[pid].append(sorted([k, v] for k, v in data.items())))
         probes[pid] = p
     steps = []
     for op in case["ops"]:
